@@ -55,6 +55,9 @@ Model/ConfigSpec.vos Model/ConfigSpec.vok Model/ConfigSpec.required_vos: Model/C
 Model/WSPool.vo Model/WSPool.glob Model/WSPool.v.beautified Model/WSPool.required_vo: Model/WSPool.v Base/Prelude.vo
 Model/WSPool.vio: Model/WSPool.v Base/Prelude.vio
 Model/WSPool.vos Model/WSPool.vok Model/WSPool.required_vos: Model/WSPool.v Base/Prelude.vos
+Model/Shutdown.vo Model/Shutdown.glob Model/Shutdown.v.beautified Model/Shutdown.required_vo: Model/Shutdown.v Base/Prelude.vo
+Model/Shutdown.vio: Model/Shutdown.v Base/Prelude.vio
+Model/Shutdown.vos Model/Shutdown.vok Model/Shutdown.required_vos: Model/Shutdown.v Base/Prelude.vos
 Proofs/LimiterProofs.vo Proofs/LimiterProofs.glob Proofs/LimiterProofs.v.beautified Proofs/LimiterProofs.required_vo: Proofs/LimiterProofs.v Base/Prelude.vo Model/Limiter.vo
 Proofs/LimiterProofs.vio: Proofs/LimiterProofs.v Base/Prelude.vio Model/Limiter.vio
 Proofs/LimiterProofs.vos Proofs/LimiterProofs.vok Proofs/LimiterProofs.required_vos: Proofs/LimiterProofs.v Base/Prelude.vos Model/Limiter.vos
@@ -88,6 +91,9 @@ Proofs/ConfigProofs.vos Proofs/ConfigProofs.vok Proofs/ConfigProofs.required_vos
 Proofs/WSPoolProofs.vo Proofs/WSPoolProofs.glob Proofs/WSPoolProofs.v.beautified Proofs/WSPoolProofs.required_vo: Proofs/WSPoolProofs.v Base/Prelude.vo Model/WSPool.vo
 Proofs/WSPoolProofs.vio: Proofs/WSPoolProofs.v Base/Prelude.vio Model/WSPool.vio
 Proofs/WSPoolProofs.vos Proofs/WSPoolProofs.vok Proofs/WSPoolProofs.required_vos: Proofs/WSPoolProofs.v Base/Prelude.vos Model/WSPool.vos
+Proofs/ShutdownProofs.vo Proofs/ShutdownProofs.glob Proofs/ShutdownProofs.v.beautified Proofs/ShutdownProofs.required_vo: Proofs/ShutdownProofs.v Base/Prelude.vo Model/Shutdown.vo
+Proofs/ShutdownProofs.vio: Proofs/ShutdownProofs.v Base/Prelude.vio Model/Shutdown.vio
+Proofs/ShutdownProofs.vos Proofs/ShutdownProofs.vok Proofs/ShutdownProofs.required_vos: Proofs/ShutdownProofs.v Base/Prelude.vos Model/Shutdown.vos
 Cases/LimiterCase.vo Cases/LimiterCase.glob Cases/LimiterCase.v.beautified Cases/LimiterCase.required_vo: Cases/LimiterCase.v Base/Prelude.vo Model/Limiter.vo
 Cases/LimiterCase.vio: Cases/LimiterCase.v Base/Prelude.vio Model/Limiter.vio
 Cases/LimiterCase.vos Cases/LimiterCase.vok Cases/LimiterCase.required_vos: Cases/LimiterCase.v Base/Prelude.vos Model/Limiter.vos
@@ -118,6 +124,9 @@ Cases/ConfigCase.vos Cases/ConfigCase.vok Cases/ConfigCase.required_vos: Cases/C
 Cases/WSPoolCase.vo Cases/WSPoolCase.glob Cases/WSPoolCase.v.beautified Cases/WSPoolCase.required_vo: Cases/WSPoolCase.v Base/Prelude.vo Model/WSPool.vo
 Cases/WSPoolCase.vio: Cases/WSPoolCase.v Base/Prelude.vio Model/WSPool.vio
 Cases/WSPoolCase.vos Cases/WSPoolCase.vok Cases/WSPoolCase.required_vos: Cases/WSPoolCase.v Base/Prelude.vos Model/WSPool.vos
+Cases/ProbeCase.vo Cases/ProbeCase.glob Cases/ProbeCase.v.beautified Cases/ProbeCase.required_vo: Cases/ProbeCase.v Base/Prelude.vo Model/Shutdown.vo
+Cases/ProbeCase.vio: Cases/ProbeCase.v Base/Prelude.vio Model/Shutdown.vio
+Cases/ProbeCase.vos Cases/ProbeCase.vok Cases/ProbeCase.required_vos: Cases/ProbeCase.v Base/Prelude.vos Model/Shutdown.vos
 Props/C09.vo Props/C09.glob Props/C09.v.beautified Props/C09.required_vo: Props/C09.v Base/Prelude.vo Model/Limiter.vo Proofs/LimiterProofs.vo
 Props/C09.vio: Props/C09.v Base/Prelude.vio Model/Limiter.vio Proofs/LimiterProofs.vio
 Props/C09.vos Props/C09.vok Props/C09.required_vos: Props/C09.v Base/Prelude.vos Model/Limiter.vos Proofs/LimiterProofs.vos
@@ -142,9 +151,9 @@ Props/C11.vos Props/C11.vok Props/C11.required_vos: Props/C11.v Base/Prelude.vos
 Props/C02.vo Props/C02.glob Props/C02.v.beautified Props/C02.required_vo: Props/C02.v Base/Prelude.vo Base/Wrap.vo Model/Hash.vo Model/Strategy.vo Model/LB.vo Proofs/StrategyProofs.vo Proofs/LBProofs.vo
 Props/C02.vio: Props/C02.v Base/Prelude.vio Base/Wrap.vio Model/Hash.vio Model/Strategy.vio Model/LB.vio Proofs/StrategyProofs.vio Proofs/LBProofs.vio
 Props/C02.vos Props/C02.vok Props/C02.required_vos: Props/C02.v Base/Prelude.vos Base/Wrap.vos Model/Hash.vos Model/Strategy.vos Model/LB.vos Proofs/StrategyProofs.vos Proofs/LBProofs.vos
-Props/C04.vo Props/C04.glob Props/C04.v.beautified Props/C04.required_vo: Props/C04.v Base/Prelude.vo Model/Strategy.vo Model/LB.vo Proofs/LBProofs.vo
-Props/C04.vio: Props/C04.v Base/Prelude.vio Model/Strategy.vio Model/LB.vio Proofs/LBProofs.vio
-Props/C04.vos Props/C04.vok Props/C04.required_vos: Props/C04.v Base/Prelude.vos Model/Strategy.vos Model/LB.vos Proofs/LBProofs.vos
+Props/C04.vo Props/C04.glob Props/C04.v.beautified Props/C04.required_vo: Props/C04.v Base/Prelude.vo Model/Strategy.vo Model/LB.vo Proofs/LBProofs.vo Model/Shutdown.vo Proofs/ShutdownProofs.vo
+Props/C04.vio: Props/C04.v Base/Prelude.vio Model/Strategy.vio Model/LB.vio Proofs/LBProofs.vio Model/Shutdown.vio Proofs/ShutdownProofs.vio
+Props/C04.vos Props/C04.vok Props/C04.required_vos: Props/C04.v Base/Prelude.vos Model/Strategy.vos Model/LB.vos Proofs/LBProofs.vos Model/Shutdown.vos Proofs/ShutdownProofs.vos
 Props/C03.vo Props/C03.glob Props/C03.v.beautified Props/C03.required_vo: Props/C03.v Base/Prelude.vo Model/Strategy.vo Model/LB.vo Proofs/LBProofs.vo
 Props/C03.vio: Props/C03.v Base/Prelude.vio Model/Strategy.vio Model/LB.vio Proofs/LBProofs.vio
 Props/C03.vos Props/C03.vok Props/C03.required_vos: Props/C03.v Base/Prelude.vos Model/Strategy.vos Model/LB.vos Proofs/LBProofs.vos
@@ -172,3 +181,6 @@ Props/C18.vos Props/C18.vok Props/C18.required_vos: Props/C18.v Gen/ConfigGen.vo
 Props/C20.vo Props/C20.glob Props/C20.v.beautified Props/C20.required_vo: Props/C20.v Base/Prelude.vo Model/WSPool.vo Proofs/WSPoolProofs.vo Proofs/ProxyProofs.vo Gen/Wrappers.vo
 Props/C20.vio: Props/C20.v Base/Prelude.vio Model/WSPool.vio Proofs/WSPoolProofs.vio Proofs/ProxyProofs.vio Gen/Wrappers.vio
 Props/C20.vos Props/C20.vok Props/C20.required_vos: Props/C20.v Base/Prelude.vos Model/WSPool.vos Proofs/WSPoolProofs.vos Proofs/ProxyProofs.vos Gen/Wrappers.vos
+Props/C19.vo Props/C19.glob Props/C19.v.beautified Props/C19.required_vo: Props/C19.v Base/Prelude.vo Model/Shutdown.vo Proofs/ShutdownProofs.vo Model/WSPool.vo Proofs/WSPoolProofs.vo
+Props/C19.vio: Props/C19.v Base/Prelude.vio Model/Shutdown.vio Proofs/ShutdownProofs.vio Model/WSPool.vio Proofs/WSPoolProofs.vio
+Props/C19.vos Props/C19.vok Props/C19.required_vos: Props/C19.v Base/Prelude.vos Model/Shutdown.vos Proofs/ShutdownProofs.vos Model/WSPool.vos Proofs/WSPoolProofs.vos
